@@ -23,7 +23,7 @@ ASSUMPTIONS = ['a kill happens between two events, an event being an output writ
                'outputs are compared modulo Created/LastChange/processingDateTime; logits by unpickled content; JPEGs byte-wise', '"complete page" = all its requested outputs exist when the run starts']
 N = {'quick': 0, 'thorough': 0}      # filled in by scenarios()
 CLASSES = ['single_crash', 'multi_crash', 'no_crash']
-REQUIRED = ['second_delivery_scenarios', 'xml_only_scenarios', 'widened_request_scenarios', 'scenarios_with_folders_from_the_configuration_file', 'scenarios_with_glob_characters_in_the_output_path', 'lmdb_scenarios', 'decoder_batch_runs', 'scenarios', 'crash_runs', 'resume_runs', 'crashes_inside_batch', 'final_trees_compared', 'page_events', 'nothing_to_do_runs', 'real_kills_compared']
+REQUIRED = ['parallel_resume_scenarios', 'second_delivery_scenarios', 'xml_only_scenarios', 'widened_request_scenarios', 'scenarios_with_folders_from_the_configuration_file', 'scenarios_with_glob_characters_in_the_output_path', 'lmdb_scenarios', 'decoder_batch_runs', 'scenarios', 'crash_runs', 'resume_runs', 'crashes_inside_batch', 'final_trees_compared', 'page_events', 'nothing_to_do_runs', 'real_kills_compared']
 KNOWN_CROPS = 'line crops are the only requested output'
 IDS = ('a', 'a-1', 'b.v2', 'c.jpg_x', 'd.xml', 'e.logits.1', 'f', 'f.b', '.cover')     # 'a-1': its crop files a-1-<line>.jpg also match the pattern a-*.jpg of page 'a'; '.cover': a hidden-file name; 'b.v2' and 'f': their input PAGE XML names another image file; 'f' / 'f.b': file-name order (f.b.png < f.png) and id order (f < f.b) disagree
 ALL = ['xml', 'render', 'logits', 'alto', 'line']
@@ -378,21 +378,21 @@ def xml_only_batch(mon, ctx):
 def widened_request(mon, ctx):
     """history over runs that request different outputs: a run asking for PAGE XML + ALTO is killed (or completes), the next -s run also asks for the logits:
     every output requested by the LAST run ends up present for every page"""
-    k2 = ['xml', 'logits', 'alto']
-    ref_out, ref, nw, res0, _ = reference(ctx, k2, mon)
-    for crash_at in (None, 9, 22):
-        out = os.path.join(ctx.tmpdir, 'wr_%s' % crash_at)
-        r1 = run(ctx, out, ['xml', 'alto'], crash_at=crash_at)[0]
-        r2, _, pr2 = run(ctx, out, k2)
-        mon.count('widened_request_scenarios')
-        mon.count('extra_evaluations')
-        mon.cur_desc = {'leg': 'first run xml+alto (crash at %s), second run xml+logits+alto' % crash_at}
-        got = pipeline.snapshot(out)
-        missing = sorted(set(ref) - set(got))
-        if r2 != 'ok':
-            mon.violation('resumed-run-exits-cleanly', {'status': r2, 'first_run': r1})
-        elif missing:
-            mon.violation('every-requested-output-present', {'first_run_outputs': ['xml', 'alto'], 'second_run_outputs': k2, 'crash_position_in_first_run': crash_at, 'missing': missing[:6], 'n_missing': len(missing)})
+    for k1, k2 in ((['xml', 'alto'], ['xml', 'logits', 'alto']), (['xml'], ['xml', 'logits', 'line'])):       # (round 8: the second pair - line crops requested only by the later run)
+        ref_out, ref, nw, res0, _ = reference(ctx, k2, mon)
+        for crash_at in (None, 9, 22):
+            out = os.path.join(ctx.tmpdir, 'wr_%s_%s' % (len(k1), crash_at))
+            r1 = run(ctx, out, k1, crash_at=crash_at)[0]
+            r2, _, pr2 = run(ctx, out, k2)
+            mon.count('widened_request_scenarios')
+            mon.count('extra_evaluations')
+            mon.cur_desc = {'leg': 'first run %s (crash at %s), second run %s' % ('+'.join(k1), crash_at, '+'.join(k2))}
+            got = pipeline.snapshot(out)
+            missing = sorted(set(ref) - set(got))
+            if r2 != 'ok':
+                mon.violation('resumed-run-exits-cleanly', {'status': r2, 'first_run': r1})
+            elif missing:
+                mon.violation('every-requested-output-present', {'first_run_outputs': k1, 'second_run_outputs': k2, 'crash_position_in_first_run': crash_at, 'missing': missing[:6], 'n_missing': len(missing)})
 
 
 def second_delivery(mon, ctx):
@@ -461,9 +461,57 @@ def second_delivery(mon, ctx):
         shutil.rmtree(out, ignore_errors=True)
 
 
+def parallel_resume(mon, ctx):
+    """(round 8) a resume with worker processes when fewer pages are left than workers (a model-free batch: line cropping only, as real processes): the outputs of
+    one / two / three pages are missing from an otherwise complete tree"""
+    import sys
+    kinds = ['xml', 'line', 'render']
+    root = os.path.join(ctx.tmpdir, 'par_batch')
+    ids = ['q%d' % j for j in range(6)]
+    pipeline.make_batch(root, ids, seed=ctx.seed * 10 + 3, n_lines=2, ocr=False)
+    script = os.path.join(ctx.repo, 'user_scripts', 'parse_folder.py')
+
+    def go(out, workers):
+        argv = pipeline.argv_for(root, out, kinds, skip=True, extra=['--process-count', str(workers)])
+        argv[0] = script
+        try:
+            return subprocess.run([sys.executable] + argv, stdout=subprocess.DEVNULL, stderr=subprocess.DEVNULL, timeout=600).returncode
+        except subprocess.TimeoutExpired:
+            return 'timeout'
+    ref_out = os.path.join(ctx.tmpdir, 'par_ref')
+    rc = go(ref_out, 1)
+    ref = pipeline.snapshot(ref_out)
+    if rc != 0 or len(ref) < len(ids) * 4:
+        mon.inconclusive_because('parallel-resume leg: the sequential reference run did not produce the expected files (rc %r, %d files)' % (rc, len(ref)))
+        return
+    for missing_pages, workers in ((('q3',), 4), (('q0', 'q4'), 8), (('q1', 'q2', 'q5'), 2)):
+        out = os.path.join(ctx.tmpdir, 'par_%d' % workers)
+        shutil.copytree(ref_out, out)
+        for k in list(ref):
+            base = os.path.basename(k)
+            if any(base.rsplit('.', 1)[0] == pid or base.startswith(pid + '-') for pid in missing_pages):
+                os.remove(os.path.join(out, k))
+        rc = go(out, workers)
+        mon.count('parallel_resume_scenarios')
+        mon.count('extra_evaluations')
+        mon.cur_desc = {'leg': 'resume with worker processes', 'pages_left': missing_pages, 'process_count': workers}
+        got = pipeline.snapshot(out)
+        if rc == 'timeout':
+            mon.inconclusive_because('parallel-resume leg: parse_folder subprocess did not finish within 600 s')
+        elif rc != 0:
+            mon.violation('resumed-run-exits-cleanly', {'returncode': rc, 'pages_left': missing_pages, 'process_count': workers})
+        elif sorted(set(ref) - set(got)):
+            mon.violation('every-requested-output-present', {'pages_left': missing_pages, 'process_count': workers, 'missing': sorted(set(ref) - set(got))[:6]})
+        elif any(got[k] != ref[k] for k in ref):
+            mon.violation('outputs-equal-uninterrupted-run', {'pages_left': missing_pages, 'process_count': workers, 'different': [k for k in ref if got[k] != ref[k]][:6]})
+        shutil.rmtree(out, ignore_errors=True)
+
+
 def extra(mon, ctx):
     if ctx.shard == 1 % ctx.nshards:
         decoder_batch(mon, ctx)
+    if ctx.shard == 5 % ctx.nshards:
+        parallel_resume(mon, ctx)
     if ctx.shard == 4 % ctx.nshards:
         second_delivery(mon, ctx)
     if ctx.shard == 2 % ctx.nshards:
